@@ -28,7 +28,8 @@ RULE = (
     "Part 2 (in simulation, step observer): for every worker newly allocated at a step to task t_low there is no "
     "READY/WORKING non-automatic non-facility task t_high with a strictly better key under the run's task rule "
     "(key read from the live 'updated' snapshot) for which the worker is eligible and which could still accept it at "
-    "the end of allocation. Non-trivial = a list with a tie and >= 3 distinct keys (part 1) / a step where a worker "
+    "the end of allocation; for a higher-priority facility task (single task of its component, flat product) the "
+    "same with a FREE facility of the placed workplace that the worker can operate (pair form). Non-trivial = a list with a tie and >= 3 distinct keys (part 1) / a step where a worker "
     "eligible for >= 2 candidate tasks was allocated (part 2); distinct by case hash."
 )
 ASSUMPTIONS = [
@@ -114,15 +115,23 @@ def _sim(draw, cfg):
     return {"kind": "sim", "spec": draw(gen.model_spec(cfg))}
 
 
+CFG_PAIRS = CFG_SIM.copy(max_wps=2, max_facs_per_wp=3, min_tasks=3, max_tasks=6, max_workers=4, inputs=False)
+
+
+@st.composite
+def _sim_pairs(draw, cfg):
+    return {"kind": "sim", "spec": gen.single_task_components(draw(gen.model_spec(cfg)))}
+
+
 def strategy(tier):
     if tier == "quick":
-        return st.one_of(_lists(), _sim(CFG_SIM))
-    return st.one_of(_lists(), _sim(CFG_SIM.copy(max_tasks=12, max_workers=6)))
+        return st.one_of(_lists(), _sim(CFG_SIM), _sim_pairs(CFG_PAIRS))
+    return st.one_of(_lists(), _sim(CFG_SIM.copy(max_tasks=12, max_workers=6)), _sim_pairs(CFG_PAIRS.copy(max_tasks=9, max_workers=6)))
 
 
 def budget(tier):
     if tier == "quick":
-        return {"cases": 3000, "shards": 4}
+        return {"cases": 4500, "shards": 8}
     return {"cases": 200000, "shards": 16}
 
 
@@ -273,6 +282,11 @@ def check_sim(case, res):
     sim = simcheck.Sim(spec, phases=("updated", "allocated"))
     rule = spec["opts"]["rule"]
     res.cls("rule_" + TaskPriorityRuleMode(rule).name)
+    flat_product = all(c.get("parent") is None for c in spec["comps"])
+    comp_tasks = {}
+    for i, t in enumerate(spec["tasks"]):
+        if t.get("comp") is not None:
+            comp_tasks.setdefault(t["comp"], []).append(i)
     contested = False
     for k, d in enumerate(sim.steps):
         upd, alloc = d.get("updated"), d.get("allocated")
@@ -291,12 +305,27 @@ def check_sim(case, res):
                         continue
                     th = sim.tasks[hi]
                     hi_id = sim.tids[hi]
-                    if th["auto"] or th["nf"] or upd["tasks"][hi_id][T_STATE] not in (S.READY, S.WORKING):
+                    if th["auto"] or upd["tasks"][hi_id][T_STATE] not in (S.READY, S.WORKING):
                         continue
                     if not sim.worker_eligible(wi, hi, k):
                         continue
-                    contested = True
                     khi = task_key(rule, sim, hi, upd, k)
+                    if th["nf"]:
+                        # pair form: single-task component of a flat product, a FREE facility the worker can operate
+                        if not (flat_product and th.get("comp") is not None and len(comp_tasks[th["comp"]]) == 1):
+                            continue
+                        pairs = simcheck.acceptable_pairs(sim, alloc, hi, k, [w])
+                        if pairs:
+                            contested = True
+                            if khi < klo:
+                                res.fail(
+                                    "C11.inversion_pair",
+                                    "step %d rule %s: worker %s went to %s (key %r) although facility task %s (key %r) has higher priority and could accept the pair %s"
+                                    % (k, TaskPriorityRuleMode(rule).name, w, lo_id, klo, hi_id, khi, pairs[0]),
+                                    sig=TaskPriorityRuleMode(rule).name,
+                                )
+                        continue
+                    contested = True
                     if not khi < klo:
                         continue
                     aw = alloc["tasks"][hi_id][T_AW]
